@@ -45,6 +45,21 @@ THOROUGH_MODELS = [("write", 6, 80), ("write+frag", 5, 80), ("t52+frag", 2, 60),
                    ("t50", 2, 60), ("t52", 3, 80), ("t60", 2, 60)]
 
 
+ROOT_MOVED = "fragment-root-moved-into-another-file"
+
+
+def roots_inside_other_trees(loader) -> list[str]:
+    """fragment files whose root element hangs inside ANOTHER file's tree.
+
+    Never the case after a load, and no index instruction produces it: it is the post-state of the known defect
+    `fragment-root-moved-into-another-file|…` (C08; DESIGN §12.7) - an object that is the root of its own fragment file was
+    moved through the list API, lxml took the root element out of its document and put it below the new owner, the
+    ModelFile still calls it its root. From then on ONE element sequence is iterated by TWO ModelFiles, which neither
+    "the elements currently contained in a loaded fragment" (each of them is contained in two) nor the per-fragment index
+    model can express."""
+    return [str(f) for f, tr in loader.trees.items() if tr.root.getparent() is not None]
+
+
 class Monitor:
     """by_uuid / search must agree with a raw scan, after every step, for every UUID ever seen."""
 
@@ -52,12 +67,15 @@ class Monitor:
         self.out, self.ctx = out, ctx
         self.ever: dict[str, None] = {}
         self.hist: list[dict] = []
+        self.broken: dict | None = None   # set by the step that moved a fragment root into another file's tree
+        self.nsteps: int | None = None    # length of the history being run (recorded in replay cases)
 
     def start(self, model, scan, key, hist_id):
         self.key, self.hist_id = key, hist_id
         self.ever = {}
         self.hist = []
         self.seen_bad = set()
+        self.broken = None
         ids = [k for rows in scan.values() for r in rows for k in r["ids"]]
         rng = random.Random(f"ever:{key}:{hist_id}:{self.ctx.seed}")
         for k in (ids if len(ids) < 400 else rng.sample(ids, 400)):
@@ -114,12 +132,37 @@ class Monitor:
         op = S.describe(rec.step) if rec is not None else {"op": "load"}
         rk = op.get("relation", "-").split("[")[-1].rstrip("]") if "relation" in op else "-"
         sig = f"{kind}|{op['op']}|{rk}"
-        self.out.find(sig, f"{self.key} step {i} {op}: {msg}",
-                      {"kind": "history", "model": self.key, "hist": self.hist_id, "step": i, "what": what,
-                       "ops": self.hist[-6:], "failure": kind})
+        self.out.find(sig, f"{self.key} step {i} {op}: {msg}", self.case(i, what, kind))
+
+    def case(self, i, what, kind) -> dict:
+        # seed and tier are part of the case: the generated history (and the cut points of a fragmented copy) depend on them
+        return {"kind": "history", "model": self.key, "hist": self.hist_id, "step": i, "what": what,
+                "ops": self.hist[-6:], "failure": kind, "seed": self.ctx.seed, "tier": self.ctx.tier, "nsteps": self.nsteps}
+
+    def root_moved(self, rec, model, moved: list[str]):
+        """The step put the root of a fragment file into another file's tree: name the root cause once, under its own
+        signature (same classes as C08's: accessor kind | list method), and end the history - see design/C03.md."""
+        op = S.describe(rec.step)
+        kind = rec.step.rel.kind if rec.step.rel is not None else "-"
+        self.broken = {"step": rec.i, "files": moved}
+        self.out.hit("history.ended-at-fragment-root-move")
+        self.out.find(f"{ROOT_MOVED}|{kind}|{rec.step.op}",
+                      f"{self.key} step {rec.i} {op}: after {rec.step.op} the root element of fragment {moved} hangs inside another "
+                      f"file's tree (an object that is the root of its own fragment file was moved through the list API; the "
+                      f"known C08 defect of the same signature). One element sequence is now iterated by two ModelFiles; what "
+                      f"follows for C03 (e.g. save() failing half-way in update_namespaces, after which by_uuid/search serve "
+                      f"elements that are in no fragment) is a consequence, so this history ends here",
+                      self.case(rec.i, moved[0], ROOT_MOVED))
+        model._verif_broken_roots = True
+        model._verif_stop = True   # objsession.run_history ends the history after this step
 
     def step(self, rec, model):
+        if self.broken is not None:
+            return
         self.hist.append(dict(S.describe(rec.step), outcome=rec.outcome))
+        moved = roots_inside_other_trees(model._loader)
+        if moved:
+            self.root_moved(rec, model, moved)
         for f in rec.after:
             for r in rec.after[f]:
                 for k in r["ids"]:
@@ -129,6 +172,8 @@ class Monitor:
         for k in (rec.step.args.get("uuid"), (rec.step.args.get("kw") or {}).get("uuid")):
             if isinstance(k, str):
                 self.ever[k] = None
+        # the step that moved a fragment root is still judged: the raw-scan comparison is by element identity, which stays
+        # well defined (an id carried by one element that two files iterate has two rows and is not judged)
         self.check(model, rec.after, rec.i, rec)
         changed = rec.before.keys() != rec.after.keys() or any(
             [r["nid"] for r in rec.before[f]] != [r["nid"] for r in rec.after[f]] for f in rec.after)
@@ -150,6 +195,12 @@ class TieObserver:
         self.tie.dump((key, hist_id, "load"), model._loader)
 
     def step(self, rec, model):
+        if self.mon.broken is not None:
+            # a fragment root sits inside another file's tree (Monitor.root_moved has named the root cause): the tree
+            # diff of this step has no translation into index instructions - the moved subtree is un-indexed in its own
+            # file although that file's scan still shows it - so the tie ends with the previous step
+            self.out.hit("index.tie-ended-at-fragment-root-move")
+            return
         ops = S.diff_ops(S.scan_rows(rec.before), S.scan_rows(rec.after), self.tie.frag_index)
         self.tie.apply((self.key, rec.i, rec.step.op), ops)
         keys = list(self.mon.ever)[-60:]
@@ -163,6 +214,8 @@ class TieObserver:
             self.tie.dump((self.key, rec.i), model._loader)
 
     def end(self, model):
+        if self.mon.broken is not None:
+            return
         self.tie.dump((self.key, "end"), model._loader)
 
 
@@ -191,10 +244,18 @@ def save_and_check(ctx, out, model, mon: Monitor, tie: S.IndexTie, key):
 
 def one_history(ctx: Ctx, out: Outcome, key: str, h: int, nsteps: int):
     mon = Monitor(out, ctx)
+    mon.nsteps = nsteps
     tie = S.IndexTie()
     import accsession
     obs = [mon, TieObserver(out, tie, mon), accsession.AccessorTie(out)]
     model = S.run_history(ctx, out, key, nsteps, obs, hist_id=h, weights={"assign": 2})
+    if mon.broken is not None:
+        # ended by a fragment-root move (known defect, reported by the monitor): everything up to the step before is
+        # compared with the model as usual; the closing phases (rejected assignments, viewpoint, save) need a sound state
+        import os
+        if os.environ.get("VERIF_NO_MODEL") != "1":
+            tie.compare(out, f"index.{key}")
+        return mon.broken["step"]
     # a rejected assignment to a uniqueness-enforcing link relation (the roll-back restores the old link
     # elements: they must be findable again)
     import objops as _oo
@@ -257,6 +318,10 @@ def one_history(ctx: Ctx, out: Outcome, key: str, h: int, nsteps: int):
     import os
     if os.environ.get("VERIF_NO_MODEL") != "1":
         tie.compare(out, f"index.{key}")
+    return None
+
+
+REPLACEMENT = 1000   # history id offset of the history that makes up for one ended early (same parity: same closing phases)
 
 
 def run(ctx: Ctx) -> Outcome:
@@ -264,7 +329,12 @@ def run(ctx: Ctx) -> Outcome:
     plan = THOROUGH_MODELS if ctx.thorough else QUICK_MODELS
     for key, nh, ns in plan:
         for h in range(nh):
-            one_history(ctx, out, key, h, ns)
+            ended = one_history(ctx, out, key, h, ns)
+            if ended is not None and ns - (ended + 1) >= 10:
+                # the history was ended by a fragment-root move: spend the steps it did not get on one other history of
+                # the same model (with its own closing phases), so that the known defect does not cost coverage
+                out.hit("history.replacement")
+                one_history(ctx, out, key, h + REPLACEMENT, ns - (ended + 1))
     out.extra["models"] = [p[0] for p in plan]
     # refused moves: an object into a list of itself / of one of its own descendants
     from props import c03_moves
@@ -275,8 +345,16 @@ def run(ctx: Ctx) -> Outcome:
 
 def replay(ctx: Ctx, case: dict):
     out = Outcome()
-    plan = dict((k, (nh, ns)) for k, nh, ns in (THOROUGH_MODELS + QUICK_MODELS))
+    if "seed" in case and (case["seed"], case.get("tier", ctx.tier)) != (ctx.seed, ctx.tier):
+        # check.py replays in a quick / seed-0 context, but the history is a function of seed and tier
+        mine = Ctx("C03", case.get("tier", ctx.tier), case["seed"])
+        try:
+            return replay(mine, case)
+        finally:
+            mine.cleanup()
+    plan = dict((k, (nh, ns)) for k, nh, ns in (QUICK_MODELS + THOROUGH_MODELS if ctx.thorough else THOROUGH_MODELS + QUICK_MODELS))
     nh, ns = plan.get(case["model"], (1, 40))
+    ns = case.get("nsteps", ns)   # the closing phases (save, …) see the state after exactly this many steps
     one_history(ctx, out, case["model"], case["hist"], max(ns, case.get("step", 0) + 1 if isinstance(case.get("step"), int) and case["step"] < 10**5 else ns))
     for f in out.findings:
         if f.replay.get("failure") == case.get("failure"):
